@@ -29,7 +29,22 @@ def _copy_tree(root: str, dst: str) -> None:
                     ignore=shutil.ignore_patterns('__pycache__', '*.pyc', 'js', 'static', 'templates'))
 
 
-def _apply(dst: str, edits: List[Tuple[str, str, str]]) -> Optional[str]:
+def _apply_patch(dst: str, patch_rel: str) -> Optional[str]:
+    """A variant given as a unified diff (seeded/<id>/patch.diff, refactors/<name>.diff), relative to /verif."""
+    import subprocess
+    here = os.path.dirname(os.path.dirname(os.path.abspath(__file__)))
+    path = os.path.join(here, patch_rel)
+    if not os.path.exists(path):
+        return f'patch file {patch_rel} missing'
+    r = subprocess.run(['patch', '-p1', '-s', '--no-backup-if-mismatch', '-i', path], cwd=dst, capture_output=True, text=True)
+    if r.returncode != 0:
+        return f'edit anchor: patch {patch_rel} does not apply: {(r.stdout + r.stderr)[-200:]}'
+    return None
+
+
+def _apply(dst: str, edits) -> Optional[str]:
+    if isinstance(edits, str):
+        return _apply_patch(dst, edits)
     for rel, old, new in edits:
         p = os.path.join(dst, rel)
         with open(p, encoding='utf-8') as f:
